@@ -576,6 +576,7 @@ type winRec struct {
 	esz            int
 	mptr           uintptr // the mask runs parallel to the window: mask[k] belongs to element k in storage order
 	mask           []bool
+	view           bool // a view shares only the elements it addresses; any other tensor owns its whole window
 }
 
 func captureWindows(w *World) []winRec {
@@ -589,7 +590,7 @@ func captureWindows(w *World) []winRec {
 			continue
 		}
 		in := tensor.VerifInternals(t)
-		r[i] = winRec{ptr: in.RawPtr, raw: append([]byte(nil), raw...), shape: in.Shape, strides: in.Strides, esz: int(t.Dtype().Size())}
+		r[i] = winRec{ptr: in.RawPtr, raw: append([]byte(nil), raw...), shape: in.Shape, strides: in.Strides, esz: int(t.Dtype().Size()), view: t.IsView()}
 		if m := t.Mask(); len(m) > 0 {
 			r[i].mptr = uintptr(unsafe.Pointer(&m[0]))
 			r[i].mask = append([]bool(nil), m...)
@@ -626,7 +627,7 @@ func addressed(shape, strides []int, f func(off int)) bool {
 			return false
 		}
 		n *= d
-		if n > 1<<14 {
+		if n > 1<<17 {
 			return false
 		}
 	}
@@ -683,15 +684,29 @@ func outsideDestChanged(w *World, i int, pre []winRec, dests []int, mask bool) (
 		if d < 0 || d >= len(w.slots) {
 			continue
 		}
+		if d >= len(pre) || pre[d].raw == nil {
+			continue
+		}
+		if !pre[d].view {
+			// not a view: the destination owns its window (and its mask) whole - tensors cut from it, or shallow
+			// clones of it, share all of it ("the documented sharing of a backing array"), also what its own
+			// access pattern happens not to reach (a clone of a non-contiguous view keeps the view's layout)
+			if mask {
+				if len(pre[d].mask) > 0 {
+					mark(pre[d].mptr, []int{len(pre[d].mask)}, []int{1}, 1)
+				}
+			} else {
+				mark(pre[d].ptr, []int{len(pre[d].raw)}, []int{1}, 1)
+			}
+			continue
+		}
 		if mask {
-			if d < len(pre) && pre[d].raw != nil && pre[d].mask != nil {
+			if pre[d].mask != nil {
 				mark(pre[d].mptr, pre[d].shape, pre[d].strides, 1)
 			}
 			continue
 		}
-		if d < len(pre) && pre[d].raw != nil {
-			mark(pre[d].ptr, pre[d].shape, pre[d].strides, pre[d].esz)
-		}
+		mark(pre[d].ptr, pre[d].shape, pre[d].strides, pre[d].esz)
 
 	}
 	if !understood {
